@@ -103,11 +103,13 @@ def _triple(rng, scheme, beyond=True):
     return a, d, b
 
 
-def gen_policy(rng, n_schemes=None, with_cats=True, stringly=False, disabled=None):
+def gen_policy(rng, n_schemes=None, with_cats=True, stringly=False, disabled=None, truncate=False):
     """a well-formed policy; schemes that shadow each other (32-hex family) may be configured together, but a scheme that is
     shadowed by an earlier one is never anybody's default (hashes it made would be attributed to the other one)"""
     for _ in range(8):
         cfg = _gen_policy(rng, n_schemes, with_cats, stringly, disabled)
+        if not truncate:
+            cfg.pop("truncate_error", None)  # size-limit policy is property C05's business; only C10 exports it
         fam = [s for s in cfg["schemes"] if s in HEX32]
         if len(fam) < 2:
             return cfg
@@ -164,8 +166,10 @@ def _gen_policy(rng, n_schemes=None, with_cats=True, stringly=False, disabled=No
     if rng.random() < 0.35:
         cand = [s for s in schemes if s not in (cfg.get("deprecated") or []) or cfg.get("deprecated") in (["auto"], "auto")]
         cfg["default"] = rng.choice(cand)
+    if rng.random() < 0.2:
+        cfg[rng.choice(["vary_rounds", "vary_rounds", "all__vary_rounds"])] = rng.choice([1, 0.1, 0.25])
     if rng.random() < 0.1:
-        cfg["vary_rounds"] = rng.choice([1, 0.1])
+        cfg["truncate_error"] = rng.choice([True, False])
     cats = []
     if with_cats and rng.random() < 0.6:
         cats = rng.sample(CATS, rng.choice([1, 1, 2]))
@@ -263,12 +267,16 @@ def generate(rng, prop, tier):
     raise AssertionError(prop)
 
 
-def _delta(rng, cfg):
+def _delta(rng, cfg, truncate=False):
     """a valid change of the policy: exactly these keys are replaced"""
     schemes = cfg["schemes"]
     d = {}
     r = rng.random()
     costed = [s for s in schemes if s in COSTED]
+    if rng.random() < 0.15:
+        # a context-wide (scheme-less) option, given in its bare spelling or through the 'all' pseudo-scheme
+        k = rng.choice(["vary_rounds", "vary_rounds", "truncate_error" if truncate else "vary_rounds", "all__vary_rounds"])
+        return {k: rng.choice([0, 1, 0.1, 0.25, "10%"]) if "vary" in k else rng.choice([True, False])}
     if r < 0.4 and costed:
         s = rng.choice(costed)
         a, dflt, b = _triple(rng, s, beyond=False)
@@ -353,7 +361,7 @@ INVALID_KINDS = ["unknown_scheme", "unknown_option", "forbidden_salt", "default_
 
 
 def _gen_config_program(rng, tier):
-    cfg = gen_policy(rng, stringly=True)
+    cfg = gen_policy(rng, stringly=True, truncate=True)
     # custom (unregistered) hashers can only wrap real classes, not PrefixWrapper objects
     faulty = rng.random() < 0.45 and "ldap_md5_crypt" not in cfg["schemes"]
     ops = []
@@ -365,17 +373,17 @@ def _gen_config_program(rng, tier):
         elif k in ("empty_update", "copy"):
             ops.append({"op": k, "how": rng.choice(["update()", "update({})", "load({},update=True)", "copy()"])})
         elif k == "valid_update":
-            d = _delta(rng, cfg)
+            d = _delta(rng, cfg, truncate=True)
             if d:
                 ops.append({"op": k, "delta": d, "how": rng.choice(["update", "load_update", "update_dict"])})
         elif k == "failed_using":
-            ops.append({"op": k, "delta": _delta(rng, cfg) or {"deprecated": []}, "how": rng.choice(["update", "load_update", "load_replace"])})
+            ops.append({"op": k, "delta": _delta(rng, cfg, truncate=True) or {"deprecated": []}, "how": rng.choice(["update", "load_update", "load_replace"])})
         elif k == "failed_item":
-            ops.append({"op": k, "kind": rng.choice(INVALID_KINDS), "delta": _delta(rng, cfg), "how": rng.choice(["update", "load_update", "load_replace", "ini_text"]),
+            ops.append({"op": k, "kind": rng.choice(INVALID_KINDS), "delta": _delta(rng, cfg, truncate=True), "how": rng.choice(["update", "load_update", "load_replace", "ini_text"]),
                         "cat": rng.choice(CATS)})
         elif k == "failed_file":
             ops.append({"op": k, "fault": rng.choice(["missing", "unreadable", "read_error", "truncated", "wrong_section", "not_utf8"]),
-                        "delta": _delta(rng, cfg), "update": rng.random() < 0.5})
+                        "delta": _delta(rng, cfg, truncate=True), "update": rng.random() < 0.5})
     return {"cfg": {"mode": "config", "policy": cfg, "faulty": faulty, "seed": rng.getrandbits(32)}, "ops": ops}
 
 
